@@ -88,6 +88,7 @@ type c01Event struct {
 type c01Case struct {
 	workers  int
 	mode     string // w: AddEventAndWait one by one; a: AddEvent all, then Finish
+	level    string // "": engine API; e: ECAL sinks + addEvent / addEventAndWait (c01ecal.go)
 	order    string // p: processor first (a worker panic kills the process: CRASH); i: index first (a panic is recovered: PANIC)
 	rules    []c01Rule
 	scopeNil bool
@@ -179,7 +180,11 @@ func (c *c01Case) encode() string {
 	if !c.scopeNil {
 		sc = c01KVs(c.scope)
 	}
-	return fmt.Sprintf("w=%d m=%s o=%s r=%s s=%s e=%s x=%s", c.workers, c.mode, c.order, j(rs, "|"), sc, j(es, "|"), j(tab, ","))
+	lv := ""
+	if c.level != "" {
+		lv = "l=" + c.level + " "
+	}
+	return fmt.Sprintf("%sw=%d m=%s o=%s r=%s s=%s e=%s x=%s", lv, c.workers, c.mode, c.order, j(rs, "|"), sc, j(es, "|"), j(tab, ","))
 }
 
 func c01UnList(s string) []string {
@@ -217,6 +222,8 @@ func c01Decode(payload string) *c01Case {
 			c.mode = v
 		case "o":
 			c.order = v
+		case "l":
+			c.level = v
 		case "r":
 			if v == "_" {
 				break
@@ -289,6 +296,9 @@ func (e *c01Event) build() *engine.Event {
 
 func c01Run(payload string) string {
 	c := c01Decode(payload)
+	if c.level == "e" {
+		return c01RunECAL(c)
+	}
 	// the index alone
 	type idxRes struct{ t, m string }
 	var ires []idxRes
@@ -505,6 +515,9 @@ func c01Gen(g *Gen) {
 		events: []c01Event{ev("e", "a", c01St("k", V(8)))}}, "corpus")
 	emit(&c01Case{rules: []c01Rule{mkRule("r", []string{"a"}, c01St("k", V(3)), false), mkRule("q", []string{"a"}, c01St("k", V(4)), false)},
 		scope: globalScope, events: []c01Event{ev("e", "a", c01St("k", V(8))), ev("e", "a", c01St("k", V(10))), ev("e", "a", c01St("k", V(9)))}}, "corpus")
+
+	// ---- ECAL level (sinks + addEvent with a scope map)
+	c01GenECAL(g, emit)
 
 	// ---- exhaustive small universe
 	segs := []string{"a", "b", "*"}
@@ -817,6 +830,7 @@ func init() {
 			for _, r := range c01Regex {
 				c01RegexC = append(c01RegexC, regexp.MustCompile(r))
 			}
+			c01ECALSetup()
 		},
 		Gen: c01Gen,
 		Run: c01Run,
